@@ -242,8 +242,9 @@ def rand_cfg(rng):
     c["tx86"] = opt(0.4, lambda: {"append": raw(8), "prepend": raw(8)})
     c["tx64"] = opt(0.4, lambda: {"append": raw(8), "prepend": raw(8)})
     # (... and names that contain the keywords of the execute block themselves)
-    MODS = [b"ntdll", b"ntdll", b"kernel32.dll", b"My Helper.dll", b"a\\b.dll", b"k'32", b"C:\\x\\'y'.dll", b"CreateRemoteThread.dll", b"CreateThread"]
-    FNS = [b"RtlUserThreadStart", b"RtlUserThreadStart", b"LoadLibraryA", b"Thread Start", b"f\\n", b"it's", b"CreateThread", b"CreateRemoteThread", b"NtQueueApcThread-s"]
+    MODS = [b"ntdll", b"ntdll", b"kernel32.dll", b"My Helper.dll", b"a\\b.dll", b"k'32", b"C:\\x\\'y'.dll", b"CreateRemoteThread.dll", b"CreateThread",
+            "módulo.dll".encode(), "модуль".encode()]
+    FNS = [b"RtlUserThreadStart", b"RtlUserThreadStart", b"LoadLibraryA", b"Thread Start", b"f\\n", b"it's", b"CreateThread", b"CreateRemoteThread", b"NtQueueApcThread-s", "función".encode(), "関数".encode()]
     c["exec"] = opt(0.5, lambda: [{"code": k, "off": rng.choice([0, 1, 255, 4096]) if k in (6, 7) else 0, "mod": L(rng.choice(MODS)) if k in (6, 7) else [], "fn": L(rng.choice(FNS)) if k in (6, 7) else [], "pad": 0}
                                   for k in [rng.choice([1, 2, 3, 4, 5, 6, 7, 8]) for _ in range(rng.randrange(1, 6))]])
     c["allocator"] = opt(0.4, lambda: rng.choice([0, 1]))
